@@ -199,6 +199,43 @@ def run_steady(case, rng, cls, faces, meta, g, m):
         cov['steady_alpha_edited_in_place'] = 1
         if not (e2 <= TOL):
             bad.append(('steady-residual', 'after refreshing the storage coefficient alpha in place, the uniform field %g is no longer a solution of the system solvePDE assembles (%s, dt %g): normalised residual %.3g' % (c, scheme, dt, e2)))
+    if not bad and np.all(np.isfinite(x)):
+        # the loop goes on with NEW boundary data. (a) every Dirichlet / Robin side gets the data of another constant c1, assigned
+        # through the attribute c alone (nothing else touched, no value edit): the steady problem then has the uniform solution c1.
+        # (b) one such side is insulated with fixedGradient(0, scale_coeffs=s): whatever uniform field is there stays.
+        open_sides = [sd_ for sd_, v_ in spec['sides'].items() if v_['kind'] != 'N0' and not any(sd_ in SIDES[k_] for k_ in periodic)]
+        which = str(rng.choice(['new-data', 'insulate']))
+        if open_sides and which == 'new-data':
+            c1 = float(c * rng.choice([-0.5, 2.0, 3.0]) + rng.choice([0.0, 1.0]) * abs(c))
+            for sd_ in open_sides:
+                getattr(phi.BCs, sd_).c = spec['sides'][sd_]['b'] * c1
+            spy3 = SpySolver()
+            with np.errstate(all='ignore'):
+                solve_with(pf, spy3, phi, terms[1:], default_path=bool(case['seed'][-1] % 2))      # steady problem: no transient term
+            M3, b3, x3 = spy3.last
+            full_c1 = np.full(len(full_c), c1)
+            full_c1[corner_mask.ravel()] = np.where(np.isfinite(x3[corner_mask.ravel()]), x3[corner_mask.ravel()], 0.0)      # decoupled dummy unknowns
+            e3 = residual_err(M3, full_c1, b3)
+            maxerr['steady-residual-new-boundary-data'] = e3
+            cov['steady_new_boundary_data'] = 1
+            if not (e3 <= TOL):
+                bad.append(('steady-residual', 'boundary data of sides %r reassigned (face.c = b*c1) for the constant c1 = %g: the uniform field c1 does not solve the steady system solvePDE assembles (normalised residual %.3g)' % (open_sides, c1, e3)))
+        elif open_sides and which == 'insulate':
+            sd_ = str(rng.choice(open_sides))
+            getattr(phi.BCs, sd_).fixedGradient(0.0, scale_coeffs=float(rng.choice([1.0, -2.0, 0.25, 1e3])))
+            cval = float(np.asarray(phi.value).ravel()[0])
+            phi.value = np.full(g.dims, c)
+            spy4 = SpySolver()
+            with np.errstate(all='ignore'):
+                solve_with(pf, spy4, phi, [pf.transientTerm(phi, dt, alpha)] + terms[1:], default_path=bool(case['seed'][-1] % 2))
+            M4, b4, x4 = spy4.last
+            xc4 = full_c.copy()
+            xc4[corner_mask.ravel()] = x4[corner_mask.ravel()]
+            e4 = residual_err(M4, xc4, b4)
+            maxerr['steady-residual-after-insulating'] = e4
+            cov['steady_side_insulated'] = 1
+            if not (e4 <= TOL):
+                bad.append(('steady-residual', 'side %s insulated with fixedGradient(0, scale_coeffs=...): the uniform field %g is no longer a solution of the system solvePDE assembles (normalised residual %.3g)' % (sd_, c, e4)))
     kv = gen.bc_kind_vector(g, spec)
     return bad, cov, maxerr, 'steady/%s/%s/%s' % (scheme, flowfam, kv), {'c': c, 'dt': dt, 'scheme': scheme, 'flow': flowfam, 'bc': kv}, True, None
 
@@ -303,7 +340,7 @@ def floors(agg, tier):
         for kind, need in (('op', 10), ('steady', 10), ('source', 3)):
             if agg['cov'].get('kind:%s:%s' % (kind, cls), 0) < need:
                 out.append('kind:%s:%s < %d' % (kind, cls, need))
-    for k in ('op_after_inplace_edit', 'steady_alpha_edited_in_place', 'ufam:int', 'geo:int', 'geo:jitter', 'time_unit:large', 'time_unit:small', 'source_small_rates', 'steady:central', 'steady:upwind', 'steady:upwind+tvd', 'flow:stream', 'flow:radial', 'flow:uniform', 'steady_direct_checked'):
+    for k in ('steady_new_boundary_data', 'steady_side_insulated', 'op_after_inplace_edit', 'steady_alpha_edited_in_place', 'ufam:int', 'geo:int', 'geo:jitter', 'time_unit:large', 'time_unit:small', 'source_small_rates', 'steady:central', 'steady:upwind', 'steady:upwind+tvd', 'flow:stream', 'flow:radial', 'flow:uniform', 'steady_direct_checked'):
         if agg['cov'].get(k, 0) < 5:
             out.append('%s < 5' % k)
     return out
